@@ -42,7 +42,7 @@ Check (C13_responder_once :
     NoDup (req_chans steps) /\
     forall e o tg irid p len tag,
       In (e, o, tg) steps -> In (OReq irid p len tag) o ->
-      exists k c, e = EInReq k len tag /\ tg = Some c /\ o = [OReq irid p len tag]).
+      exists k c rest, e = EInReq k len tag /\ tg = Some c /\ o = OReq irid p len tag :: rest /\ has_req rest = false).
 Check (C13_unrepaired_refuted :
   exists s o,
     (let '(s1, o1) := h_send_unrepaired init_pst 0 true 3 10 false true 0 in
